@@ -52,6 +52,11 @@ let () =
          (match cab_find bytes parse (salv = "1") (nat_of_int (List.length bytes + 2)) N0 [] with
           | Some l -> print_endline (String.concat "," (List.map (fun x -> string_of_int (int_of_n x)) l) ^ ".")
           | None -> print_endline "nofuel")
+     | "outname", [lw; isunix; utf8; hex] ->
+         (* the C library's towlower()/tolower() in the "C" locale: ASCII only *)
+         let lower x = let v = int_of_n x in if v >= 65 && v <= 90 then n_of_int (v + 32) else x in
+         let r = out_tail lower (lw = "1") (isunix = "1") (utf8 = "1") (bytes_of_hex hex) in
+         print_endline (if r = [] then "-" else hex_of_bytes r)
      | "lzss", [mode; hex] -> Printf.printf "0 %s\n" (hex_of_bytes (lzss_spec (n_of_int (int_of_string mode)) (bytes_of_hex hex)))
      | _ -> print_endline "?");
     flush stdout
